@@ -56,8 +56,10 @@ class Counter:
 
 
 # ------------------------------------------------------------------ recipes
-def rand_prop(rng, cnt, depth):
-    k = rng.choice(["none", "bool", "int", "float", "str", "str", "list", "tuple", "dict", "expr", "tag", "comp"])
+def rand_prop(rng, cnt, depth, nested=False):
+    k = rng.choice(["none", "bool", "int", "float", "str", "str", "list", "tuple", "dict", "expr", "tag", "comp", "tfprop", "exprplus"])
+    if nested and k == "tfprop":
+        k = "str"   # (only a prop VALUE that is a tagifiable is expanded; one buried in a list or dict is outside the statement)
     if depth <= 0 and k in ("tag", "comp", "list", "tuple", "dict"):
         k = "str"
     if k == "none":
@@ -71,14 +73,24 @@ def rand_prop(rng, cnt, depth):
     if k == "str":
         return {"p": "str", "v": rng.choice(STRS)}
     if k in ("list", "tuple"):
-        return {"p": k, "v": [rand_prop(rng, cnt, depth - 1) for _ in range(rng.randint(0, 3))]}
+        return {"p": k, "v": [rand_prop(rng, cnt, depth - 1, True) for _ in range(rng.randint(0, 3))]}
     if k == "dict":
-        return {"p": "dict", "v": [["k%d" % i, rand_prop(rng, cnt, depth - 1)] for i in range(rng.randint(0, 3))]}
+        return {"p": "dict", "v": [["k%d" % i, rand_prop(rng, cnt, depth - 1, True)] for i in range(rng.randint(0, 3))]}
     if k == "expr":
         return {"p": "expr", "v": "__jsx_%d__" % cnt.next()}
+    if k == "exprplus":
+        # jsx(...) + "plain" is a plain string again (only jsx + jsx stays an expression)
+        jt = rng.random() < 0.4
+        return {"p": "exprplus", "v": "__jsx_%d__" % cnt.next(), "tail": rng.choice(["_t1", "", "_t22"] if jt else [" tail", "", "+1"]), "jsx_tail": jt}
+    if k == "tfprop":
+        # a prop whose value is a tagifiable object expanding to a tag (with a dependency inside) or to a component
+        inner = rand_tag(rng, cnt, 0) if rng.random() < 0.6 else rand_comp(rng, cnt, 0, allow_tf=False)
+        if inner["k"] == "jtag":
+            inner["c"] = inner["c"] + [rand_dep(rng, cnt)]
+        return {"p": "node", "v": {"k": "jtf", "payload": inner}}
     if k == "tag":
         return {"p": "node", "v": rand_tag(rng, cnt, depth - 1)}
-    return {"p": "node", "v": rand_comp(rng, cnt, depth - 1)}
+    return {"p": "node", "v": rand_comp(rng, cnt, depth - 1, allow_tf=not nested)}
 
 
 def rand_dep(rng, cnt):
@@ -132,7 +144,7 @@ TAG_ATTRS = ["id", "class_", "title", "data_v", "href"]
 def rand_comp(rng, cnt, depth, allow_tf=True):
     props = []
     for _ in range(rng.choice([0, 0, 1, 2, 3, 4])):
-        props.append([rng.choice(PROP_NAMES), rand_prop(rng, cnt, min(depth, 2))])
+        props.append([rng.choice(PROP_NAMES), rand_prop(rng, cnt, min(depth, 2), nested=not allow_tf)])
     kids = [rand_child(rng, cnt, depth, allow_tf) for _ in range(rng.choice([0, 0, 1, 2, 3]))] if depth > 0 else []
     return {"k": "jsx", "name": rng.choice(COMPONENTS), "props": props, "c": kids, "how": rng.choice(["ctor", "ctor", "append", "extend", "mixed"])}
 
@@ -159,6 +171,8 @@ def build_prop(p):
         return {kk: build_prop(v) for kk, v in p["v"]}
     if k == "expr":
         return jsx_mod.jsx(p["v"])
+    if k == "exprplus":
+        return jsx_mod.jsx(p["v"]) + (jsx_mod.jsx(p["tail"]) if p["jsx_tail"] else p["tail"])
     return build(p["v"])
 
 
@@ -239,6 +253,10 @@ def exp_prop(p):
         return ("object", list(d.items()))
     if k == "expr":
         return ("atom", p["v"])
+    if k == "exprplus":
+        return ("atom", p["v"] + p["tail"]) if p["jsx_tail"] else ("str", p["v"] + p["tail"])
+    if p["v"]["k"] == "jtf":
+        return exp_node(p["v"]["payload"])   # a tagifiable prop value is written as its expansion
     return exp_node(p["v"])
 
 
@@ -547,12 +565,13 @@ def check_allowed_props(ctx, rng):
     except Exception as e:
         ctx.violation("allowed-prop-rejected", "prop %r in the allow-list rejected: %r" % (ok, e), {"allowed": allowed})
         return
-    try:
-        mk(**{ok: 1, bad: 2})
-    except Exception:
-        pass
-    else:
-        ctx.violation("disallowed-prop-accepted", "prop %r outside the allow-list %r accepted" % (bad, allowed), {"allowed": allowed, "prop": bad})
+    for val in (2, None, False, "", 0, [], ht.div()):
+        try:
+            mk(**{ok: 1, bad: val})
+        except Exception:
+            continue
+        ctx.violation("disallowed-prop-accepted", "prop %r=%r outside the allow-list %r accepted" % (bad, val, allowed), {"allowed": allowed, "prop": bad})
+        return
     try:
         jsx_mod.jsx_tag_create("lower")()
     except Exception:
